@@ -140,6 +140,7 @@ inductive FitCond (α : Type) where
   | contains (attr s : String)       -- search.attr.contains(s)
   | isIn (attr s : String)           -- search.attr.in_(s)
   | boolAttr (attr : String)         -- search.is_complete
+  | boolEq (attr : String) (b : Bool) -- search.is_complete == True / False  (`attr = True`, `attr = False`)
   | info (k v : String)              -- aggregator.info[k] == v
   deriving Inhabited
 
@@ -150,6 +151,7 @@ def evalFitCond {α} (ops : NumOps α) (f : Fit α) : FitCond α → Bool
   | .contains a s => match f.attr a with | .str t => strIn s t | _ => false
   | .isIn a s => match f.attr a with | .str t => strIn t s | _ => false
   | .boolAttr a => match f.attr a with | .bool b => b | _ => false
+  | .boolEq a v => match f.attr a with | .bool b => b == v | _ => false
   | .info k v => f.info.any fun kv => kv.1 == k && kv.2 == v
 
 /-! ## query objects -/
